@@ -18,6 +18,10 @@ Eof == /\ phase = "open" /\ (~par.standard \/ par.cut = par.total) /\ (par.cut =
        /\ phase' = "ended" /\ ending' = "eof" /\ UNCHANGED <<par, got>>
 Error == /\ phase = "open" /\ par.standard /\ par.cut < par.total
          /\ phase' = "ended" /\ ending' = "error" /\ UNCHANGED <<par, got>>
+(* what the packet-level receive tells its caller once the stream has ended, as often as it is asked: the first answer lasts.
+   An ended stream that was reported as an error is never turned into a clean end-of-stream by asking again (nor the reverse).     *)
+CallerEof == phase = "ended" /\ ending = "eof" /\ UNCHANGED vars
+CallerError == phase = "ended" /\ ending = "error" /\ UNCHANGED vars
 Next == WrapError \/ WrapOk \/ (\E n \in 1..par.plain : Data(n)) \/ Eof \/ Error \/ (phase = "ended" /\ UNCHANGED vars)
 Spec == Init /\ [][Next]_vars
 CleanEofOnlyAfterCloseNotify == (ending = "eof" /\ par.standard) => par.cut = par.total
